@@ -760,6 +760,14 @@ impl Ctx {
             // the simulator's own self-checks (e.g. a generated module rejected by the
             // validator) are harness errors, never violations
             self.harness_error(format!("batch {} run {}: {}", s.name(), index, v.detail));
+            if let Ok(d) = std::env::var("VERIF_DUMP_HARNESS_PLANS") {
+                // debugging aid: keep the plan of a failed self-check
+                let _ = std::fs::create_dir_all(&d);
+                let _ = std::fs::write(
+                    std::path::Path::new(&d).join(format!("{}-{}-{}.json", self.property, s.name(), index)),
+                    serde_json::to_string_pretty(&serde_json::to_value(plan).unwrap_or(Value::Null)).unwrap_or_default(),
+                );
+            }
             return;
         }
         if let Some(k) = self.is_known(&v.signature) {
